@@ -116,8 +116,15 @@ func VH_D_Enqueue() {
 			s.HeartbeatHref == url+"/tasks/heartbeat/"+s.Task.Id+"/"+cnt), "C08:message-names-task-id-and-counter")
 		// the promise that travels with the hand-off (the notification's payload) is the task's own root promise as
 		// stored when this cycle read it (second store round trip), or absent when the root is not stored
-		if vx.YieldKind(1) == "store" && vx.YieldFault(1) == "" {
-			prow := vx.Lookup(vx.YieldPost(1), "promises", row.Str("root_promise_id"))
+		// (the state of the latest store round trip before the hand-off: the cycle's promise read)
+		pr := 0
+		for j := 1; j < i; j++ {
+			if vx.YieldKind(j) == "store" {
+				pr = j
+			}
+		}
+		if vx.YieldFault(pr) == "" {
+			prow := vx.Lookup(vx.YieldPost(pr), "promises", row.Str("root_promise_id"))
 			if s.Promise == nil {
 				vx.Assert(!prow.Present(), "C19:notification-carries-the-stored-root-promise")
 			} else {
